@@ -325,41 +325,7 @@ def routine(draw, name, profile, in_module):
     if has_member:
         menv = {'vars': ['q'], 'targets': ['q'], 'writable': False, 'arrays': False, 'strings': False, 'loop': None, 'in_while': True}
         r['member'] = {'body': draw(stmts(menv, 1, 2))}
-    if profile.get('ubound_pair') and (in_module or profile.get('ubound_free', True)) and draw(st.integers(0, 2)) == 0:
-        # ONE check conditional guards dimension 1 of the two rank-1 dummies against DIFFERENT extents:
-        # `if (ubound(x, 1) < n .or. ubound(z, 1) < m) then; stop; end if`; the caller passes z with exactly m elements
-        # (the case must provide m >= n, see pair_inputs) and the routine uses the extents of both (SIZE, SUM)
-        for a in ('x', 'z'):
-            sp = r['ub'][a]
-            if sp['mode'] != 'full':
-                sp = {'mode': 'full', 'joined': None, 'partial_dim': None, 'inline': draw(st.integers(0, 3)) == 0,
-                      'body': draw(st.sampled_from(['stop', 'print+stop'])),
-                      'dims': [{'orient': draw(st.sampled_from(['ub<n', 'n>ub'])), 'sp': draw(st.sampled_from([0, 0, 1, 2])),
-                                'upper': draw(st.booleans()), 'rel': 'lt'}]}
-                r['ub'][a] = sp
-            sp['bound'] = 'dummy'
-            sp['dims'][0]['rel'] = 'lt'
-        r['ub']['z']['pair_bound'] = 'm'
-        r['ub_pair'] = True
-        # x and z no longer conform: no `where (..) x = z`
-
-        def no_other(t):
-            if isinstance(t, list):
-                return ['lit', 0] if t == ['other'] else [no_other(v) for v in t]
-            if isinstance(t, dict):
-                return {k: no_other(v) for k, v in t.items()}
-            return t
-        r['body'] = no_other(r['body'])
     return r
-
-
-def has_pair(model):
-    return any(r.get('ub_pair') for r, _ in all_routines(model))
-
-
-def pair_inputs(inps):
-    """input vectors for a file with a paired check: m = n + 1 (z has m elements; generated subscripts of z go up to n)"""
-    return [dict(i, m=i['n'] + 1) for i in inps]
 
 
 @st.composite
@@ -601,8 +567,6 @@ def r_stmts(body, r, rc, ind):
 
 def bound_name(arr, d, spec):
     """text of the extent the check of dimension d compares against"""
-    if spec.get('pair_bound') and d == 0:
-        return spec['pair_bound']
     if spec.get('bound') == 'smaller':
         return '3' if d == 0 else '2'
     if spec.get('bound') == 'local':
@@ -629,19 +593,16 @@ def shape_text(arr, spec, fixed, caller=False):
 
 def r_ubound_checks(r, rc, ind):
     """the check conditionals; returns nothing, appends lines (none of them for fixed dummies when rc.fixed)"""
-    pair = bool(r.get('ub_pair'))
     for arr in ('x', 'z', 'y'):
         spec = r['ub'][arr]
         if spec['mode'] not in ('full', 'partial'):
             continue
-        if pair and arr == 'z':
-            continue        # checked in the conditional of x
         rank = 2 if arr == 'y' else 1
         dims = list(range(rank))
         if spec['mode'] == 'partial':
             dims = [spec['partial_dim']]
         conds = []
-        for arr, spec, d in [(arr, spec, d) for d in dims] + ([('z', r['ub']['z'], 0)] if pair and arr == 'x' else []):
+        for d in dims:
             ds = spec['dims'][d]
             ub = ('UBOUND' if ds['upper'] else 'ubound') + f'({arr}, {d + 1})'
             bn = bound_name(arr, d, spec)
@@ -652,9 +613,7 @@ def r_ubound_checks(r, rc, ind):
                 conds.append(f'{ub}{rc.op("lt", sp)}{bn}')
             else:
                 conds.append(f'{bn}{rc.op("gt", sp)}{ub}')
-        if pair and arr == 'z':
-            arr, spec = 'x', r['ub']['x']
-        groups = [conds] if (spec.get('joined') or (pair and arr == 'x')) and len(conds) > 1 else [[c] for c in conds]
+        groups = [conds] if spec.get('joined') and len(conds) > 1 else [[c] for c in conds]
         if rc.fixed and will_be_fixed(spec) and not rc.keep_checks:
             rc.next_code += len(groups)
             continue
@@ -739,8 +698,6 @@ def r_routine(r, rc, ind, extra_args=0):
     else:
         _emit(rc, b, 'if (lg) t = t + 1')
         _emit(rc, b, "if (s(1:1) == 'i') u = u + 1")
-    if r.get('ub_pair'):
-        _emit(rc, b, 'u = mod(u + size(x) + 2*size(z) + abs(sum(z)), 997)')
     _emit(rc, b, 'ires = mod(t + 3*u + 7*k, 100003)')
     if r.get('member'):
         _emit(rc, ind, _kw(r, 'contains'))
@@ -811,18 +768,14 @@ def render_driver(model, inps, fixed=False, extra=0):
         n, m, s = inp['n'], inp['m'], inp['s']
         for r, _ in all_routines(model):
             L.append(f'  n = {n}; m = {m}; c = {ci + 1}')
-            zn = 'm' if r.get('ub_pair') else 'n'
-            L.append(f'  allocate(x(n + {extra}), z({zn} + {extra}), y(n + {extra}, m))')
+            L.append(f'  allocate(x(n + {extra}), z(n + {extra}), y(n + {extra}, m))')
             L.append(f'  do i = 1, n + {extra}')
             L.append(f'    x(i) = mod(i*7 + {s}, 11) - 3')
-            if not r.get('ub_pair'):
-                L.append(f'    z(i) = mod(i*5 + {s}*3, 13) - 5')
+            L.append(f'    z(i) = mod(i*5 + {s}*3, 13) - 5')
             L.append('    do j = 1, m')
             L.append(f'      y(i, j) = mod(i*3 + j*4 + {s}, 9) - 2')
             L.append('    end do')
             L.append('  end do')
-            if r.get('ub_pair'):
-                L += [f'  do i = 1, m + {extra}', f'    z(i) = mod(i*5 + {s}*3, 13) - 5', '  end do']
             L.append(f'  ires = {s} + c')
             if r['kind'] == 'func':
                 L.append(f'  ires = {r["name"]}(n, m, x, z, y)')
